@@ -7,6 +7,27 @@ FIX_COMMITS = ["ce0eac5", "ddff033", "c099f35", "5a5e3db", "bc61b3d", "167be66",
 
 # id -> (level text, level note, technique); only ids listed here are claimed
 CHECKS = {
+    "C01": ("Networks of 2..9 real nodes (only real nodes) over hours and days of virtual time: generated ids, families, announce ports, latency tables (round trips < 1.5 s), announcer/searcher schedules with overlaps and offsets on both sides of 24 h; must-find / must-not-find windows on the search streams.",
+            "announce_peer datagrams need up to 1 s after the announcing search ends (asserted from 1.1 s); latencies below 1 s with round trips under the 1.5 s query timeout; long histories to ~6 days; quick tier uses <= 4 nodes for day-long cases.",
+            "property-based testing (proptest) of end-to-end histories on a simulated network with a virtual clock"),
+    "C02": ("Worlds of 1..1000 omniscient scripted nodes (uniform / adversarially clustered ids), one real searcher; announce targets compared with the independently computed 8 XOR-closest nodes, per-announce field and token checks, multiset equality of the stream with all delivered answers' values.",
+            "Benign network as the property presupposes (every answer within 1 s, truthful closest-node lists).",
+            "property-based testing (proptest) against an independent reference computation over the whole world"),
+    "C03": ("Hostile networks: per-datagram drop/delay/duplicate tables, hostile node lists, 1..3 concurrent searches and an attacker injecting forged responses derived from observed transaction ids; provenance of every yielded address and every announce decided from the complete wire log.",
+            "Outstanding-query windows follow the documented 1.5 s timeout / end-game; +-2 ms at expiries either way; source address of a response is not part of the property.",
+            "fault-injection property testing (proptest) with a history invariant over the wire log"),
+    "C04": ("Scripted contacts and chains of ever closer nodes answering around the 1.5 s timeout, errors, duplicates, silence, send failures, no-good-node and dead-node cases; virtual-time bounds on stream close in both directions.",
+            "eps = 100 virtual ms; searches are issued on a bootstrapped node (C16 covers earlier ones).",
+            "property-based testing (proptest) of answer/timeout schedules with virtual-time oracles"),
+    "C10": ("Per-contact event histories (answer, mention, query received, query sent, time steps around 15 min) on the real table against an independent status model after every event; wire stage: maintenance worlds with the event history extracted from the wire log.",
+            "Exact 15-minute coincidences skipped; wire stage asserts only what is robust to the bootstrap initial round not counting as a query.",
+            "model-based property testing (proptest histories vs. reference status model)"),
+    "C11": ("Hours-long runs (30 min..3 h, thorough 12 h) of a real node with 1..8 scripted contacts that always answer or fall silent at generated times, single-contact and well-connected regimes, with/without user searches; deadlines on samples of load_contacts() every 2 s and find_node probes every 30 s.",
+            "Loss-free, round trips < 400 ms, no bucket full; a query from a contact counts as sign of life like an answer; one known finding (transient loss while two queries are in flight) is matched by exact signature.",
+            "property-based testing (proptest) of long histories with deadline oracles"),
+    "C12": ("Unsolicited queries and responses with foreign transaction ids (short, long, unused action id, real id plus extra bytes, truncated) injected at generated times into a node that is bootstrapping/idle/searching, hostile node lists in genuine answers; membership invariants on contacts, search results and find_node probe answers.",
+            "Forged action ids >= 2^20 are certainly unused in a short run.",
+            "fault-injection property testing (proptest) with attributable unique markers"),
     "C05": ("One real node on a simulated datagram network receives generated sequences of well-formed queries (all kinds/argument combinations, tids 0..32 B incl. tids echoed from the node's own in-flight requests) interleaved with non-queries; per-datagram reply discipline is decided from the wire log with an independent codec.",
             "Replies are attributed by source address within the same virtual millisecond; the simulated network replaces UDP; residual thread_rng/HashSet-order nondeterminism is covered by confirmation re-runs.",
             "property-based testing (proptest): generated datagram histories against a real node, per-datagram oracle + global reply count"),
